@@ -317,6 +317,13 @@ fn builder_histories() -> Vec<(bool, Vec<Op>)> {
             out.push((with_addr, vec![SetLen(Some(7)), Bytes(n.min(65535)), U8(1), TypeSsl]));
             out.push((with_addr, vec![Bytes(n.min(65535)), Bytes(20), SetLen(Some(1))]));
         }
+        // a payload of EXACTLY 65535 bytes that ends in an empty value / an empty slice (a write of no bytes into a full buffer)
+        let room = 65535 - if with_addr { 12 } else { 0 };
+        out.push((with_addr, vec![Tlv(2, room - 6), Tlv(4, 0)]));
+        out.push((with_addr, vec![Tlv(2, room - 6), Pair(4, 0)]));
+        out.push((with_addr, vec![Bytes(room), Bytes(0)]));
+        out.push((with_addr, vec![Tlv(2, room - 3), Batch(vec![0])]));
+        out.push((with_addr, vec![Tlv(2, room - 3), Section(0)]));
         out.push((with_addr, vec![Tlv(2, 65505), Tlv(4, 0)]));
         out.push((with_addr, vec![Tlv(2, 65505), Tlv(4, 12)]));
         out.push((with_addr, vec![Tlv(2, 65500), Batch(vec![1])]));
@@ -548,13 +555,17 @@ fn check_c12_domain() -> (Option<Mismatch>, usize) {
             return (Some(Mismatch { case: hex(&input), expected: format!("terminal error {} (one element corrupted)", want), actual: format!("{} incomplete={}", kind, incomplete) }), n);
         }
         // the same through the auto-detecting parser and, for UTF-8 input, the text entry point
-        let auto = HeaderResult::parse(&input[..]);
-        if auto != HeaderResult::V1(got) || auto.is_incomplete() { return (Some(Mismatch { case: hex(&input), expected: format!("auto-detect: terminal {}", want), actual: format!("{:?}", auto) }), n); }
-        if let Ok(text) = std::str::from_utf8(&input) {
-            let gs = v1::Header::try_from(text);
-            let ks = match &gs { Ok(_) => "Ok".to_string(), Err(e) => v1_kind_name(e).to_string() };
-            if ks != want || gs.is_incomplete() { return (Some(Mismatch { case: hex(&input), expected: format!("text entry: terminal {}", want), actual: format!("{} incomplete={}", ks, gs.is_incomplete()) }), n); }
-        }
+        let rest = guarded(&input, "the auto-detecting / text entry point (C12)", || {
+            let auto = HeaderResult::parse(&input[..]);
+            if auto != HeaderResult::V1(got) || auto.is_incomplete() { return Some(Mismatch { case: hex(&input), expected: format!("auto-detect: terminal {}", want), actual: format!("{:?}", auto) }); }
+            if let Ok(text) = std::str::from_utf8(&input) {
+                let gs = v1::Header::try_from(text);
+                let ks = match &gs { Ok(_) => "Ok".to_string(), Err(e) => v1_kind_name(e).to_string() };
+                if ks != want || gs.is_incomplete() { return Some(Mismatch { case: hex(&input), expected: format!("text entry: terminal {}", want), actual: format!("{} incomplete={}", ks, gs.is_incomplete()) }); }
+            }
+            None
+        });
+        if rest.is_some() { return (rest, n); }
     }
     // v2 part: complete headers with exactly one invalid element (signature, one control nibble, length below the family size)
     for c in v2_cases() {
@@ -577,27 +588,33 @@ fn check_c16_domain() -> (Option<Mismatch>, usize) {
     let mut cases = v1_cases();
     for (c, _) in c12_v1_cases() { cases.push(c); }
     for input in cases {
-        let text = match std::str::from_utf8(&input) { Ok(t) => t, Err(_) => continue };
+        if std::str::from_utf8(&input).is_err() { continue; }
         n += 1;
-        let rb = v1::Header::try_from(&input[..]);
-        let rs = v1::Header::try_from(text);
-        let rh = text.parse::<v1::Header<'static>>();
-        let ra = text.parse::<v1::Addresses>();
-        // the window ends inside a multi-byte character <=> the byte entry point sees invalid UTF-8: then all must fail
-        let cut_inside = matches!(&rb, Err(v1::BinaryParseError::InvalidUtf8(_)));
-        let same = if cut_inside { rs.is_err() && rh.is_err() && ra.is_err() } else {
-            match (&rb, &rs) {
-                (Ok(a), Ok(b)) => a == b && rh.as_ref().ok() == Some(&b.to_owned()) && ra.as_ref().ok() == Some(&b.addresses),
-                (Err(v1::BinaryParseError::Parse(a)), Err(b)) => a == b && rh.as_ref().err() == Some(b) && ra.as_ref().err() == Some(b),
-                _ => false,
-            }
-        };
-        if !same {
-            return (Some(Mismatch { case: hex(&input), expected: "text, bytes and FromStr entry points agree".into(), actual: format!("bytes={:?} text={:?} FromStr<Header>={:?} FromStr<Addresses>={:?}", rb, rs, rh, ra) }), n);
-        }
-        if let Ok(h) = &rs { let o = h.to_owned(); if o != *h || o.to_string() != h.to_string() || o.protocol() != h.protocol() || o.addresses_str() != h.addresses_str() { return (Some(Mismatch { case: hex(&input), expected: "owned copy equals the original".into(), actual: format!("{:?} vs {:?}", o, h) }), n); } }
+        // a panic in an entry point is not "the same outcome"
+        if let Some(m) = guarded(&input, "a v1 entry point (C16)", || c16_one(&input)) { return (Some(m), n); }
     }
     (None, n)
+}
+fn c16_one(input: &[u8]) -> Option<Mismatch> {
+    let text = std::str::from_utf8(input).ok()?;
+    let rb = v1::Header::try_from(input);
+    let rs = v1::Header::try_from(text);
+    let rh = text.parse::<v1::Header<'static>>();
+    let ra = text.parse::<v1::Addresses>();
+    // the window ends inside a multi-byte character <=> the byte entry point sees invalid UTF-8: then all must fail
+    let cut_inside = matches!(&rb, Err(v1::BinaryParseError::InvalidUtf8(_)));
+    let same = if cut_inside { rs.is_err() && rh.is_err() && ra.is_err() } else {
+        match (&rb, &rs) {
+            (Ok(a), Ok(b)) => a == b && rh.as_ref().ok() == Some(&b.to_owned()) && ra.as_ref().ok() == Some(&b.addresses),
+            (Err(v1::BinaryParseError::Parse(a)), Err(b)) => a == b && rh.as_ref().err() == Some(b) && ra.as_ref().err() == Some(b),
+            _ => false,
+        }
+    };
+    if !same {
+        return Some(Mismatch { case: hex(input), expected: "text, bytes and FromStr entry points agree".into(), actual: format!("bytes={:?} text={:?} FromStr<Header>={:?} FromStr<Addresses>={:?}", rb, rs, rh, ra) });
+    }
+    if let Ok(h) = &rs { let o = h.to_owned(); if o != *h || o.to_string() != h.to_string() || o.protocol() != h.protocol() || o.addresses_str() != h.addresses_str() { return Some(Mismatch { case: hex(input), expected: "owned copy equals the original".into(), actual: format!("{:?} vs {:?}", o, h) }); } }
+    None
 }
 
 /// C06, last sentence: a buffer that is still a possible v2 header (the specification says "incomplete") is never
@@ -622,7 +639,7 @@ fn per_input(prop: &str) -> Vec<(&'static str, fn(&[u8]) -> Option<Mismatch>)> {
     fn v2_all(c: &[u8]) -> Option<Mismatch> { check_v2_parts(c, 2, true) }
     fn auto_both(c: &[u8]) -> Option<Mismatch> { check_auto(c).or_else(|| check_auto_abs(c)) }
     match prop {
-        "C01" => vec![("v1", v1_accept)],
+        "C01" => vec![("v1", v1_accept), ("v1", c01_fromstr)],
         "C02" => vec![("v2", v2_accept)],
         "C03" => vec![("v1", v1_all), ("v2", v2_all), ("both", check_auto), ("both", meta_c04), ("both", meta_c05), ("v2", meta_c13), ("v2", meta_c14), ("v1", meta_c15), ("v2", meta_c16_v2), ("tlv", check_tlv)],
         "C04" => vec![("both", meta_c04)],
@@ -679,7 +696,7 @@ fn main() {
     let args: Vec<String> = std::env::args().collect();
     let prop = args.get(1).map(|s| s.as_str()).unwrap_or("C01");
     let one = if args.get(2).map(|s| s.as_str()) == Some("--case") { args.get(3).map(|s| s.as_str()) } else { None };
-    let (m, n) = run(prop, one);
+    let (m, n) = match std::panic::catch_unwind(|| run(prop, one)) { Ok(x) => x, Err(_) => (Some(Mismatch { case: String::new(), expected: "the sweep returns".into(), actual: "PANIC in the code under test during the sweep".into() }), 0) };
     match m {
         Some(m) => println!("{{\"found\":true,\"cases\":{},\"case\":\"{}\",\"expected\":\"{}\",\"actual\":\"{}\"}}", n, json_escape(&m.case), json_escape(&m.expected), json_escape(&m.actual)),
         None => println!("{{\"found\":false,\"cases\":{}}}", n),
